@@ -570,6 +570,9 @@ class Br(ContentElement):
     raise RuntimeError("Br elements are not associated with a region")
 
   def copy_to(self, dest: Br):
+    if dest is self:
+      return
+
     dest.set_id(self.get_id())
     dest.set_lang(self.get_lang())
     dest.set_space(self.get_space())
@@ -868,6 +871,9 @@ class Region(ContentElement):
     self._users = set()
 
   def copy_to(self, dest: Region):
+    if dest is self:
+      return
+
     dest.set_lang(self.get_lang())
     dest.set_space(self.get_space())
 
